@@ -4,3 +4,8 @@ import ClusterVerif.Props.C03
 #print axioms CV.C03.allocate_holds
 #print axioms CV.C03.valid_factors_no_panic
 #print axioms CV.C03.factorsValid_iff
+#print axioms CV.C03.gen_allocate_skeleton
+#print axioms CV.C03.gen_classification_order
+#print axioms CV.C03.gen_obtain_skeleton
+#print axioms CV.C03.gen_valid_skeleton
+#print axioms CV.C03.gen_allocators
